@@ -77,6 +77,9 @@ class ReplayChooser:
         v = self._next(name)
         return float(v)
 
+    def sym_str(self, name, maxlen):
+        return str(self._next(name))
+
     def traced(self):
         return contextlib.nullcontext()
 
@@ -141,6 +144,16 @@ def make_chooser():
                 cap = self.space.status_cap
                 v = RealBasedSymbolicFloat(self._name(name), float)
                 self.space.status_cap = cap
+                self._syms[len(self.trace)] = v
+                self.trace.append([name, None])
+                return v
+
+        def sym_str(self, name, maxlen):
+            """symbolic string (CrossHair's lazily generated code points) of length <= maxlen"""
+            with NoTracing():
+                from crosshair.libimpl.builtinslib import LazyIntSymbolicStr
+                v = LazyIntSymbolicStr(self._name(name))
+                self.space.add(v._codepoints._len.var <= maxlen)
                 self._syms[len(self.trace)] = v
                 self.trace.append([name, None])
                 return v
